@@ -50,6 +50,11 @@ struct FnDir {
     hoist_text: Option<String>,
     sig: Option<String>,
     inline_then: Vec<usize>,
+    /// E22 `@@inline_option`: every `opt.and_then(|p| body)` / `opt.or_else(|| body)` of the directive whose
+    /// closure is written in place is replaced by the std definition of the call
+    /// (`match opt { Some(p) => body, None => None }` / `match opt { Some(v) => Some(v), None => body }`):
+    /// for closures that capture `&mut` state, which Verus rejects
+    inline_option: bool,
     /// `@@tail name`: the tail expression of the function is bound (`let name = <tail>;`), the
     /// `@@post` text follows, then `name` is the new tail — so that proof text can follow the result
     tail: Option<String>,
@@ -317,6 +322,7 @@ fn parse_template(path: &Path, nodes: &mut Vec<Node>) {
                         }
                         "viter" => d.viter = true,
                         "inline_or_insert_with" => d.inline_entry = true,
+                        "inline_option" => d.inline_option = true,
                         "inline_then" => d.inline_then.push(rest.parse().unwrap_or_else(|_| die(&format!("{sctx}: @@inline_then needs closure ordinal")))),
                         "from" => d.from = Some(rest),
                         "to" => d.to = Some(rest),
@@ -919,6 +925,31 @@ impl<'a, 'ast> Visit<'ast> for Ed<'a> {
             self.push(rr.end, es.end, "", "E3-then-yield", false);
             self.visit_expr(&e.receiver);
             return;
+        }
+        // E22: `opt.and_then(|p| body)` / `opt.or_else(|| body)` -> the std definition of the call
+        if self.dir.inline_option && e.args.len() == 1 && (e.method == "and_then" || e.method == "or_else") {
+            if let syn::Expr::Closure(c) = &e.args[0] {
+                let ok = if e.method == "and_then" { c.inputs.len() == 1 } else { c.inputs.is_empty() };
+                if ok {
+                    self.closure_idx += 1; // the closure literal disappears but keeps its ordinal
+                    let rs = e.receiver.span().byte_range();
+                    let bs = c.body.span().byte_range();
+                    let es = e.span().byte_range();
+                    self.push(rs.start, rs.start, "(match ", "E22-option-combinator-inlined", false);
+                    if e.method == "and_then" {
+                        let ps = c.inputs[0].span().byte_range();
+                        let pat = self.src[ps].to_string();
+                        self.push(rs.end, bs.start, format!(" {{ Some({pat}) => "), "E22-option-combinator-inlined", true);
+                        self.push(bs.end, es.end, ", None => None })", "E22-option-combinator-inlined", true);
+                    } else {
+                        self.push(rs.end, bs.start, " { Some(vx_some) => Some(vx_some), None => ", "E22-option-combinator-inlined", true);
+                        self.push(bs.end, es.end, " })", "E22-option-combinator-inlined", true);
+                    }
+                    self.visit_expr(&e.receiver);
+                    self.visit_expr(&c.body);
+                    return;
+                }
+            }
         }
         // E15: `cond.then(|| body)` with a closure that captures `&mut` state (rejected by Verus) is
         // replaced by the std definition of `bool::then`: `if cond { Some(body) } else { None }`
